@@ -81,6 +81,8 @@ def monitor_sched(case_lines, out_lines, S, F):
             live.pop(int(op[1]), None)
         elif op and op[0] == "detach" and op[1].isdigit() and int(op[1]) in live:
             dead.append(live.pop(int(op[1])))
+        elif op and op[0] in ("rewind", "clear"):
+            live.clear(); dead.clear()      # the caller gave everything up
     nexti = {t: 0 for t in progs}
     unmounted = False
     refs_zero_by = None
